@@ -437,9 +437,10 @@ class SphereParameters(Op):
     KINDS = ["subspace", "geodesic", "segment", "hyperplane", "horosphere"]
 
     def params(self, draw):
-        n = draw(st.integers(2, 4))
+        n = draw(st.sampled_from([2, 3, 3, 4, 4]))
         kind = draw(objs.s_pick(self.KINDS))
-        k = draw(st.integers(2, n)) if kind == "subspace" else 2
+        # subspaces of dimension >= 2 (k >= 3 ideal points) as often as geodesics
+        k = draw(st.sampled_from(list(range(2, n + 1)) + [n])) if kind == "subspace" else 2
         return dict(n=n, kind=kind, k=k, model=draw(st.sampled_from(["poincare", "halfspace"])))
 
     def unit(self, draw, params):
